@@ -25,7 +25,7 @@ RULE = ("cases = enumerated (not sampled) cross product of: option --method (abs
         "--disable-ipv6 x 13 --listen forms (none, v4, v4:port, v6, v6:port, both, both with ports, both with one port, "
         "0.0.0.0, bare port, port equal to the first DNS search port) x DNS forms (off, --dns with v4/v6/both/no resolvers, "
         "--ns-hosts v4/v6, --ns-hosts equal to a resolver) x --to-ns x subnets per family (none/one/the listen address itself, with and without a port/both families) x excludes (unrelated; entries whose IP equals an active listen address - default loopback or the --listen address of each family - plain, with another mask, with a port, with a port range, alone and combined with unrelated entries) x "
-        "-N x user/group (absent, known, unknown) x bind-oracle patterns (all free, first ports busy per protocol/family, "
+        "-N x user/group (absent, known, unknown, resolving to numeric id 0 or 1, for every method) x bind-oracle patterns (all free, first ports busy per protocol/family, "
         "explicit port busy, EACCES, EADDRNOTAVAIL on IPv6, everything busy, all but the last port busy, all UDP busy); "
         "quick tier = corpus of boundary configurations (incl. those of findings F11-F14, F21, F22) "
         "+ a seeded slice of the product, thorough = the whole product; a case is non-trivial when it left the default path "
@@ -681,6 +681,18 @@ UG = {
     'group?': dict(group=2, groups={1: 2001}),
     'both': dict(user=1, group=1, users={1: 1001}, groups={1: 2001}),
 }
+# accounts whose resolved numeric id is 0 (root) or another small id: "an id was given" must not be
+# confused with "the id is truthy" (seeded change M-C15-G)
+UG_IDS = {
+    'user0': dict(user=3, users={3: 0, 1: 1001}),
+    'group0': dict(group=3, groups={3: 0, 1: 2001}),
+    'both0': dict(user=3, group=3, users={3: 0}, groups={3: 0}),
+    'user0+group': dict(user=3, group=1, users={3: 0}, groups={1: 2001}),
+    'user+group0': dict(user=1, group=3, users={1: 1001}, groups={3: 0}),
+    'small': dict(user=4, group=4, users={4: 1}, groups={4: 1}),
+}
+UG.update(UG_IDS)
+UG_REST = ['none', 'user', 'user?', 'group', 'group?', 'both']
 
 
 def listen_ips(form):
@@ -728,7 +740,7 @@ def product_core():
 def product_rest():
     for m, dis6, lf, df, sf, tons, exc, an, ug in itertools.product(
             METHODS, (0, 1), LISTEN_SMALL, DNS_SMALL, SUBNETS_SMALL, (None, (4, '1.1.1.1', 53)),
-            ((), (X4,), (X4, X6)), (0, 1), UG):
+            ((), (X4,), (X4, X6)), (0, 1), UG_REST):
         yield build(m, dis6, lf, df, sf, 'free', tons=tons, exc=exc, an=an, ug=ug)
 
 
@@ -736,6 +748,12 @@ def product_coincide():
     """User entries that coincide with entries client.main adds by itself."""
     for m, dis6, lf, xf, sf, df in itertools.product(METHODS, (0, 1), LISTEN, XSELF, SUBNETS_X, ('off', 'dns46', 'nsh=resolv')):
         yield build(m, dis6, lf, df, sf, 'free', exc=excludes_of(xf, lf), xlabel=xf)
+
+
+def product_ids():
+    """--user/--group resolving to id 0 / small ids, for every method."""
+    for m, dis6, lf, df, sf, ug in itertools.product(METHODS, (0, 1), LISTEN_SMALL, DNS_SMALL, ('v4', 'both'), UG_IDS):
+        yield build(m, dis6, lf, df, sf, 'free', ug=ug)
 
 
 def product_heavy():
@@ -791,6 +809,10 @@ def corpus():
         build(nat, 0, 'none', 'off', 'self4port', 'free', exc=excludes_of('x4port', 'none'), xlabel='x4port'),
         build(nat, 0, 'none', 'nsh=resolv', 'both', 'free'),
     ]
+    # accounts with numeric id 0 / small ids, every method (seeded change M-C15-G)
+    for m in METHODS:
+        for ug in ('user0', 'group0', 'both0', 'small'):
+            out.append(build(m, 0, 'none', 'off', 'v4', 'free', ug=ug))
     c, _ = build(nat, 0, 'none', 'off', 'v4', 'free')
     c['remote'] = 0
     out.append((c, 'no-remote'))
@@ -801,12 +823,13 @@ def gen_cases(ctx):
     cases = list(corpus())
     rng = ctx.rng
     if ctx.thorough:
-        cases += list(product_core()) + list(product_rest()) + list(product_coincide()) + list(product_heavy())
+        cases += list(product_core()) + list(product_rest()) + list(product_coincide()) + list(product_ids()) + list(product_heavy())
     else:
         frac_core, frac_rest, n_heavy = 0.03 * ctx.boost, 0.02 * ctx.boost, 12 * ctx.boost
         cases += [x for x in product_core() if rng.random() < frac_core]
         cases += [x for x in product_rest() if rng.random() < frac_rest]
         cases += [x for x in product_coincide() if rng.random() < frac_core]
+        cases += [x for x in product_ids() if rng.random() < frac_core]
         heavy = list(product_heavy())
         cases += rng.sample(heavy, min(n_heavy, len(heavy)))
     return cases
